@@ -86,6 +86,10 @@ pub fn read_menu() -> Vec<(String, Step)> {
         ("callMany:set,get,create".into(), rd("eth_callMany", json!([[set, get0, create], null, null]), true)),
         ("callMany:set,fail,get".into(), rd("eth_callMany", json!([[set, fail, get0], null, null]), true)),
         ("callMany:set,boom".into(), rd("eth_callMany", json!([[set, boom], null, pre]), true)),
+        // fewer transaction ids than calls (and an empty list)
+        ("callMany:set,get,create+1 txid".into(), rd("eth_callMany", json!([[set, get0, create], null, {"opReturnTxIds": [h32(0x31)], "bitcoinTxHexes": {}}]), true)),
+        ("estimateMany:set,get+1 txid".into(), rd("eth_estimateGasMany", json!([[set, get0], null, {"opReturnTxIds": [h32(0x31)], "bitcoinTxHexes": {}}]), true)),
+        ("callMany:set,get+no txids".into(), rd("eth_callMany", json!([[set, get0], null, {"opReturnTxIds": [], "bitcoinTxHexes": {}}]), true)),
         ("callMany:deploy,set+pre".into(), rd("eth_callMany", json!([[deploy, set], "pending", pre]), true)),
         ("estimate:set".into(), rd("eth_estimateGas", json!([set, null]), true)),
         ("estimate:create".into(), rd("eth_estimateGas", json!([create, null]), true)),
